@@ -138,6 +138,9 @@ M = [
     ("m13l", "C13", TG, "        if tierNames is None:\n            tierNames = self.tierNames\n",
      "        if tierNames is None:\n            tierNames = self.tierNames\n        else:\n            tierNames.sort()\n",
      "mergeTiers sorts the caller's name list in place"),
+    ("m13m", "C13", IT, "            raise errors.CollisionError(\n                \"Attempted to insert interval \"",
+     "            self._hadCollision = True\n            raise errors.CollisionError(\n                \"Attempted to insert interval \"",
+     "hidden state: a rejected insert sets a flag that makes a later difference() drop the first entry (see EXTRA)"),
     # ------------------------------------------------------------------ C16
     ("m16a", "C16", AU, "return round(startTime * self.frameRate) * self.sampleWidth",
      "return int(startTime * self.frameRate) * self.sampleWidth", "floor instead of round"),
@@ -165,6 +168,8 @@ M = [
 ]
 
 EXTRA = {
+    "m13m": [(IT, "        retTier = self.new()\n\n        for entry in tier.entries:\n            retTier = retTier.eraseRegion(",
+              "        retTier = self.new()\n        if getattr(self, \"_hadCollision\", False) and len(retTier._entries) > 1:\n            retTier._entries.pop(0)\n\n        for entry in tier.entries:\n            retTier = retTier.eraseRegion(")],
     "m05j": [(TT, "        entries.sort()\n\n        self.name = name", "        self.name = name")],
     # m13f needs the in-place sort as a second site
     "m13f": [(IO, '        tier["entries"] = sorted(tier["entries"])', '        tier["entries"].sort()')],
